@@ -76,8 +76,13 @@ def run(tier, seed):
             continue
         chk.note_case(f"linegraph/{r['id']}", len(r["obj"]["graph"]["edges"]) >= 2)
         try:
-            lg = GR.mk_graph(r["obj"]["graph"]).line_graph()
-            got = sorted(sorted((a + 1, b + 1)) for (a, b) in lg.edges)
+            # the edges are added in the listed order, reversed, or second half first; oriented as listed, reversed, alternating
+            GR._JOB_GRAPHS.clear()
+            GR.EORD[0], GR.FLIP[0], GR.HIST[0] = r["id"] % 3, (r["id"] // 3) % 3, False
+            g = r["obj"]["graph"]
+            lg = GR.mk_graph(g).line_graph()
+            perm = GR._JOB_GRAPHS[id(g)][2]
+            got = sorted(sorted((perm[a] + 1, perm[b] + 1)) for (a, b) in lg.edges)
             ok = lg.num_vertices == len(r["obj"]["graph"]["edges"]) and got == sorted(sorted(p) for p in r["linegraph"]) \
                 and len(set(map(tuple, got))) == len(got)
         except Exception as e:  # noqa
